@@ -1824,9 +1824,13 @@ class TrajectoryStore:
                     return None
                 return var[index]
             case (True, False, False) | (True, False, True):
-                # SpeciesValues[float] | SpeciesValues[np.ndarray]
+                # SpeciesValues[float] | SpeciesValues[np.ndarray]: only
+                # species that were written for this field (the species
+                # dimension covers all species-indexed fields in the file).
+                fill = var.get_fill_value()
+                values = {sp: var[index, si] for si, sp in enumerate(species)}
                 return SpeciesValues(
-                    {sp: var[index, si] for si, sp in enumerate(species)}
+                    {sp: v for sp, v in values.items() if not np.all(v == fill)}
                 )
             case (False, True, False):
                 # ThrustModeValues
@@ -1834,13 +1838,18 @@ class TrajectoryStore:
                     {tm: var[index, ti] for ti, tm in enumerate(ThrustMode)}
                 )
             case (True, True, False):
-                # SpeciesValues[ThrustModeValues]
+                # SpeciesValues[ThrustModeValues]: only species that were
+                # written for this field.
+                fill = var.get_fill_value()
+                values = {
+                    sp: {tm: var[index, si, ti] for ti, tm in enumerate(ThrustMode)}
+                    for si, sp in enumerate(species)
+                }
                 return SpeciesValues[ThrustModeValues](
                     {
-                        sp: ThrustModeValues(
-                            {tm: var[index, si, ti] for ti, tm in enumerate(ThrustMode)}
-                        )
-                        for si, sp in enumerate(species)
+                        sp: ThrustModeValues(v)
+                        for sp, v in values.items()
+                        if not all(x == fill for x in v.values())
                     }
                 )
             case _:
